@@ -18,6 +18,7 @@ FAMILY = {          # database -> model family
     "phreeqc.dat": "std", "wateq4f.dat": "std", "minteq.v4.dat": "std", "minteq.dat": "std", "Amm.dat": "std", "phreeqc_rates.dat": "std",
     "pitzer.dat": "pitzer", "sit.dat": "sit", "llnl.dat": "llnl", "iso.dat": "iso", "core10.dat": "llnl", "Tipping_Hurley.dat": "std",
     "frezchem.dat": "pitzer", "ColdChem.dat": "pitzer",
+    "Kinec_v3.dat": "llnl", "Kinec.v2.dat": "llnl", "PHREEQC_ThermoddemV1.10_15Dec2020.dat": "llnl",
 }
 
 
@@ -136,9 +137,25 @@ P_ISO = "SOLUTION 8\n pH 7\n C 2\n [13C] -12\n Ca 1\nEND\n"
 P_TITLE_PRINT = "PRINT\n -totals true\nSOLUTION 9\n pH 6\n Na 1\n Cl 1\nEND\n"
 
 
+def p_mass(t, n=11):
+    """follow-up in mass units: sensitive to atomic weights / formula weights (gfw_map, element gfw, master gfw), to the
+    Debye-Hueckel / Pitzer A-phi slope, the dielectric constant and the density at temperature t"""
+    return (f"SOLUTION {n}\n units mg/L\n temp {t}\n pH 7.5\n Ca 40\n Mg 12\n Na 230\n K 39\n Cl 355 charge\n C 61 as HCO3\n S(6) 96 as SO4\n -water 1\n"
+            "SELECTED_OUTPUT\n -high_precision true\n -totals Ca Mg Na K Cl C S(6)\n -activities Ca+2 Na+ Cl- SO4-2 H2O\n -ionic_strength\n -water\n"
+            "USER_PUNCH\n -headings gfw_caco3 gfw_h2o gfw_na2so4 aphi eps dha dhb rho tc\n"
+            " 10 PUNCH GFW(\"CaCO3\"), GFW(\"H2O\"), GFW(\"Na2SO4\"), APHI, EPS_R, DH_A, DH_B, RHO, TC\nEND\n")
+
+
+P_PPM = ("SOLUTION 12\n units ppm\n temp 10\n density 1.02\n pH 8\n Ca 400\n Na 10000\n Cl 19000 charge\n Alkalinity 140 as HCO3\n S(6) 2700 as SO4\n"
+         "USER_PUNCH\n -headings tot\n 10 PUNCH TOT(\"Ca\") * GFW(\"Ca\"), SOLN_VOL, OSMOTIC\nEND\n")
+P_DBRATE = ("SOLUTION 13\n temp 15\n pH 6\n Ca 1\n C 2\nKINETICS 13\n Calcite\n -m0 1e-2\n -parms 1.67e5 0.6\n -tol 1e-8\n -steps 100 200\n"
+            "USER_PUNCH\n -headings k\n 10 PUNCH KIN(\"Calcite\"), SI(\"Calcite\")\nEND\n")
+
+
 def battery(db, rng, full=False):
     fam = FAMILY.get(db, "std")
-    runs = [P_BASIC, P_NOSEL, P_REACT, P_TRANSPORT, P_KIN, P_SPREAD, P_TITLE_PRINT]
+    runs = [P_BASIC, p_mass(rng.choice([0, 5, 25, 60, 90, 100])), P_NOSEL, P_REACT, P_TRANSPORT, P_KIN, P_SPREAD, P_TITLE_PRINT, P_PPM, P_DBRATE,
+            p_mass(rng.choice([0, 40, 75]), 14)]
     if has_gases(db):
         runs.append(P_GAS)
     if fam in ("pitzer", "sit", "std"):
@@ -153,16 +170,23 @@ def battery(db, rng, full=False):
     return runs + stale
 
 
-def probe_ops(db, rng, full=False):
-    """ops after the load: switches for every string channel, then runs each followed by probe + state"""
+def probe_ops(db, rng, full=False, first=None):
+    """ops after the load: switches for every string channel, then runs each followed by probe (+ state at some points).
+    `first`: an input to run before the battery (the same input the history ran last: the first calculation after a load must
+    not reuse the model / caches of the last calculation before it)"""
     ops = ["sw outstr 1", "sw logstr 1", "sw dumpstr 1", "sw errstr 1", "sw selstr 1"]
     mode = rng.choice(["run", "run", "acc"])
-    for k, text in enumerate(battery(db, rng, full)):
+    bat = battery(db, rng, full)
+    if first:
+        bat = [first] + bat
+    for k, text in enumerate(bat):
         if k == 3:
             ops += ["cur 1", "sw selfile 1", "sw outfile 1", "sw dumpfile 1", "sw logfile 1"]
         ops.append(("acc " if (mode == "acc" and k % 3 == 1) else "run ") + hx(text))
         ops.append(f"probe p{k}")
-        ops.append(f"state s{k}")
+        if k in (0, 1, 4):
+            ops.append(f"state s{k}")
+    ops.append("state send")
     ops.append("wstate wend")
     return ops
 
@@ -227,7 +251,56 @@ def gen_history(rng, max_calls=6):
     if not (DBDIR / db_after).exists():
         db_after = "phreeqc.dat"
     load_op = ("loads " if rng.random() < 0.25 else "load ") + hx(str(DBDIR / db_after))
-    return dict(ops=ops, db_after=db_after, load_op=load_op, tags=tags, spawn=rng.choice([0, 0, 1, 3]))
+    last = None
+    for o in reversed(ops):
+        if o.split(" ")[0] in ("run", "acc"):
+            last = bytes.fromhex(o.split(" ")[1]).decode()
+            break
+    return dict(ops=ops, db_after=db_after, load_op=load_op, tags=tags, spawn=rng.choice([0, 0, 1, 3]), last_input=last)
+
+
+def short_probe_ops(rng, temps=(0, 25, 100)):
+    """mass-unit follow-ups at several temperatures + sea water; member dump and table hashes right after the load and at the end"""
+    ops = ["sw outstr 1", "sw selstr 1", "sw dumpstr 1"]
+    runs = [p_mass(t, 11 + k) for k, t in enumerate(temps)] + [P_PPM, P_NOSEL, "DUMP\n -all\nEND\n"]
+    for k, t in enumerate(runs):
+        ops += ["run " + hx(t), f"probe p{k}"]
+    ops += ["state send", "wstate wend"]
+    return ops
+
+
+def cross_db_cases(rng, limit=None):
+    """every ordered pair (database before, database after) of the shipped databases: nothing but the loads in the history"""
+    dbs = databases()
+    pairs = [(a, b) for a in dbs for b in dbs if a != b]
+    rng.shuffle(pairs)
+    if limit:
+        pairs = pairs[:limit]
+    out = []
+    for k, (a, b) in enumerate(pairs):
+        hist = [("loads " if k % 5 == 0 else "load ") + hx(str(DBDIR / a))]
+        if k % 3 == 0:
+            hist.append("run " + hx(p_mass(rng.choice([0, 50, 100]))))
+        out.append(dict(ops=hist, db_after=b, load_op=("loads " if k % 2 else "load ") + hx(str(DBDIR / b)), post=short_probe_ops(rng, (rng.choice([0, 5, 10]), 25, rng.choice([60, 80, 100]))),
+                        spawn=0, tags=["cross:" + a, "db:" + a]))
+    return out
+
+
+def fail_class_cases(rng, limit=None):
+    """each failing-call class as the last call of the history, followed by LoadDatabase and by LoadDatabaseString"""
+    out = []
+    for name, fams, text in FAILS:
+        for db in (["phreeqc.dat", "pitzer.dat", "llnl.dat"] if limit is None else [rng.choice(["phreeqc.dat", "pitzer.dat", "llnl.dat", "sit.dat"])]):
+            fam = FAMILY[db]
+            if fams is not None and fam not in fams:
+                continue
+            for how in ("load", "loads"):
+                hist = ["load " + hx(str(DBDIR / db)), "sw outstr 1", "run " + hx(rng.choice([b for b in BLOCKS if b[1] is None])[2])]
+                hist.append("runf " + hx(text[1]) if isinstance(text, tuple) else "run " + hx(text))
+                after = rng.choice(databases())
+                out.append(dict(ops=hist, db_after=after, load_op=how + " " + hx(str(DBDIR / after)), post=probe_ops(after, rng), spawn=0,
+                                tags=["failclass:" + name + ":" + how, "fail:" + name]))
+    return out
 
 
 def survivor_ops(hist_ops):
